@@ -128,11 +128,12 @@ def enum_air_sweep(ctx):
         for which in ("f1", "f2", "vr", "diff"):
             top = {"f1": 1024, "f2": 1024, "vr": 512, "diff": 128}[which]
             for val in range(top):
-                for j in range(k):
+                for j in range(k + 1):
                     idx += 1
                     if not ctx.mine(idx):
                         continue
-                    rng = ctx.rng("air", stp, which, val, j)
+                    # the extra variant j == k uses one context for the whole sweep: consecutive frames differ in the swept field only
+                    rng = ctx.rng("air", stp, which, val, j) if j < k else ctx.rng("air-fixed", stp, which)
                     c = {"st": stp, "ic": rng.getrandbits(1), "ifr": rng.getrandbits(1), "nac": rng.getrandbits(3), "s1": rng.getrandbits(1),
                          "f1": rng.randint(0, 1023), "s2": rng.getrandbits(1), "f2": rng.randint(0, 1023), "vrsrc": rng.getrandbits(1),
                          "vrsign": rng.getrandbits(1), "vr": rng.randint(0, 511), "rsv": rng.getrandbits(2), "dsign": rng.getrandbits(1),
